@@ -17,7 +17,9 @@ func init() {
 	streams["rerender"] = &stream{gen: genRerender, run: runRerender}
 }
 
-var leafTexts = []string{"a", "b", "cn", "é", "日本", "x y", " lead", "trail ", "two  blanks", "tab\there", "", " nb", "nl\n", "(", "&", "AND", "ü\t ö"}
+var leafTexts = []string{"a", "b", "cn", "é", "日本", "x y", " lead", "trail ", "two  blanks", "tab\there", "", " nb", "nl\n", "(", "&", "AND", "ü\t ö",
+	// nothing but white space of one sort or another (a leaf is still a leaf), and texts that already look encapsulated
+	" ", "\t", "  ", " \t ", "\u00a0", "\u3000", "\u2003", "\u0085", "\n", "\"q\"", "'", "\"", "<x>", "[y]", "«z»", "(p)", "{{w}}"}
 
 func genLeafText(r *rand.Rand) string {
 	if r.Intn(3) == 0 {
